@@ -41,6 +41,8 @@ class Driver:
         """Transition monitors: return a list of violation dicts."""
         return []
 
+    cut_on_known_closure = True
+
     def closure_check(self, w, cfg):
         """Bounded liveness from this state (w is a private copy).  Return a violation dict or None."""
         return None
@@ -137,9 +139,8 @@ def replay(driver, cfg, events, keys=None, closure=False):
         if keys is not None and canon_world(w, driver.extra_key(w, cfg)) != keys[n]:
             return w, viols, n
     if closure:
-        v = driver.closure_check(w, cfg)
-        if v:
-            viols.append(v)
+        vs = driver.closure_check(w, cfg)
+        viols += vs if isinstance(vs, list) else [vs] if vs else []
     return w, viols, None
 
 
@@ -224,11 +225,15 @@ def explore(driver, cfg, deviations=0, max_states=None, max_seconds=None, closur
                     if do_closure:
                         raw_new = W.snapshot(w)
                         wc = W.restore(raw_new)
-                        v = driver.closure_check(wc, cfg)
+                        vs = driver.closure_check(wc, cfg)
                         res.closures += 1
-                        if v:
+                        for v in (vs if isinstance(vs, list) else [vs] if vs else []):
                             note(v, key, None, True)
-                            if v['signature'] in known:
+                            # the closure is a probe run on a copy: a known finding met by it cuts the branch
+                            # only for drivers whose later states would merely restate it
+                            if v['signature'] in known and driver.cut_on_known_closure:
+                                if not stop:
+                                    res.cut_branches += 1
                                 stop = True
                         W.activate(w)
                         if not stop:
